@@ -8,6 +8,7 @@ import (
 	"log"
 	"os"
 	"path/filepath"
+	"runtime/debug"
 	"sync"
 	"syscall"
 
@@ -201,7 +202,15 @@ func (a *Air) Process(op *types.Operation) (*types.Operation, error) {
 	// ProcessOperation opens the result file without O_TRUNC; remove a stale file like a
 	// careful operator would (same name = same operation id prefix)
 	_ = os.Remove(filepath.Join(a.Results, req.Filename()+"_result.json"))
-	path, err := a.M.ProcessOperation(req, true)
+	var path string
+	func() {
+		defer func() {
+			if rec := recover(); rec != nil {
+				err = &MachinePanic{V: rec, Stack: string(debug.Stack())}
+			}
+		}()
+		path, err = a.M.ProcessOperation(req, true)
+	}()
 	if err != nil {
 		return nil, err
 	}
@@ -218,6 +227,14 @@ func (a *Air) Process(op *types.Operation) (*types.Operation, error) {
 	}
 	return &res, nil
 }
+
+// MachinePanic reports that Machine.ProcessOperation panicked (the real process would have died).
+type MachinePanic struct {
+	V     interface{}
+	Stack string
+}
+
+func (m *MachinePanic) Error() string { return fmt.Sprintf("airgapped machine PANIC: %v", m.V) }
 
 // PubKeyBytes returns the machine's long-term DKG public key.
 func (a *Air) PubKeyBytes() []byte {
